@@ -145,6 +145,17 @@ class BoxV:
         return "%s(%r)" % (self.kind, self.v)
 
 
+class HeapBox:
+    """Box::new_uninit(): an allocation whose contents live in a store cell (written through raw pointers)"""
+    __slots__ = ("key",)
+
+    def __init__(self, key):
+        self.key = key
+
+    def __repr__(self):
+        return "heapbox%r" % (self.key,)
+
+
 class SymBuf:
     """An input buffer: a list of code-point terms (ints or BitVec32)"""
     _n = 0
